@@ -51,6 +51,8 @@ struct Base {
     depth: Option<usize>,
     /// the mutation touched a unit inside an adjacent block
     in_block: bool,
+    /// item the mutation duplicated / dropped, if any
+    item: Option<Id>,
 }
 
 fn invalid_bases(units: &[U], rng: &mut Rng) -> Vec<Base> {
@@ -63,11 +65,18 @@ fn invalid_bases(units: &[U], rng: &mut Rng) -> Vec<Base> {
     if !matches!(units[i].kind, UKind::CmdName { .. } | UKind::DashDash) {
         let mut m = units.to_vec();
         let u = m.remove(i);
+        let item = match &u.kind {
+            UKind::Flag { item, .. } | UKind::Arg { item, .. } | UKind::Word { item, .. } => {
+                Some(*item)
+            }
+            _ => None,
+        };
         out.push(Base {
             units: m,
             kind: "dropped-unit",
             depth: Some(u.depth),
             in_block: u.block.is_some(),
+            item,
         });
     }
     // duplicate a unit
@@ -76,11 +85,16 @@ fn invalid_bases(units: &[U], rng: &mut Rng) -> Vec<Base> {
         let mut m = units.to_vec();
         let u = m[i].clone();
         m.insert(i, u.clone());
+        let item = match &u.kind {
+            UKind::Flag { item, .. } | UKind::Arg { item, .. } => Some(*item),
+            _ => None,
+        };
         out.push(Base {
             units: m,
             kind: "duplicated-unit",
             depth: Some(u.depth),
             in_block: u.block.is_some(),
+            item,
         });
     }
     // foreign flag
@@ -118,6 +132,7 @@ fn invalid_bases(units: &[U], rng: &mut Rng) -> Vec<Base> {
                 && i < units.len()
                 && units[i].block.is_some()
                 && units[i].block == units[i - 1].block,
+            item: None,
         });
     }
     // corrupt a numeric value
@@ -134,6 +149,7 @@ fn invalid_bases(units: &[U], rng: &mut Rng) -> Vec<Base> {
         out.push(Base {
             depth: Some(m[i].depth),
             in_block: m[i].block.is_some(),
+            item: None,
             units: m,
             kind: "corrupted-number",
         });
@@ -166,9 +182,29 @@ pub fn run_case(case: &mut Case) {
             kind: "valid",
             depth: None,
             in_block: false,
+            item: None,
         }];
         bases.extend(invalid_bases(&units, &mut rng));
-        for base in &bases {
+        // a duplicated member of a repeated/optional *group* is claimed by the group, which
+        // then fails for want of its other members: that is a failing field, not a stray item
+        for base in &mut bases {
+            if let Some(id) = base.item {
+                if let Some(path) = b.spec.root.path_to(id) {
+                    let from = path
+                        .iter()
+                        .rposition(|e| matches!(e, PathEl::Cmd(_)))
+                        .map_or(0, |c| c + 1);
+                    let seqs = path[from..]
+                        .iter()
+                        .filter(|e| matches!(e, PathEl::Seq))
+                        .count();
+                    if seqs >= 2 {
+                        base.in_block = true;
+                    }
+                }
+            }
+        }
+        for base in bases.iter() {
             let line = render_cfg(&base.units, &mut rng, SpellStyle::Random, &hidden);
             let bounds = boundaries_before_dd(&line);
             for &at in &bounds {
